@@ -154,7 +154,9 @@ pub fn check_state(cfg: &HistCfg, st: &HState, built: bool, w: &mut Worker) -> R
     })?;
     // 0.5 -> 0.6: exactly one version record per index that has metadata, nothing else changes
     // (run on built states and on never-built ones, which hold items but no metadata)
-    if built || st.model.built.is_none() {
+    // (on every state: built, never built, and built with pending updates)
+    let _ = built;
+    {
         SECOND_ENV.with(|s| -> Result<(), Fail> {
             let s = s.borrow();
             let b = s.as_ref().unwrap();
